@@ -98,7 +98,7 @@ def strategy_impl(draw, tier):
         "keep_coords": draw(st.sampled_from([None, True, False])),
         "data_name": draw(st.sampled_from(["phi", None])),
         "dtype": dtype,
-        "layout": draw(st.sampled_from(["C", "C", "F", "view"])),   # memory layout of the input
+        "layout": draw(st.sampled_from(["C", "C", "F", "view", "neg"])),   # memory layout of the input
         "carry_coords": draw(st.booleans()),                        # input carrying the dataset's coordinates or none
         "decoy_first": draw(st.booleans()),                         # another Grid with other settings is built and used first
     }
